@@ -1300,10 +1300,12 @@ Stylesheet::findTemplate(
 
                             if(XPath::eMatchScoreNone != score)
                             {
-                                const double priorityVal = rule->getPriority();
-                                const double priorityOfRule 
-                                              = (matchScoreNoneValue != priorityVal) 
-                                              ? priorityVal : XPath::getMatchScoreValue(score);
+                                // Use the same priority the lists are ordered by
+                                // (the default priority of the alternative that
+                                // produced this entry), so the choice does not
+                                // depend on whether conflicts are reported.
+                                const double priorityOfRule =
+                                                matchPat->getPriorityOrDefault();
 
                                 matchPatPriority = priorityOfRule;
                                 const double priorityOfBestMatched =
